@@ -717,6 +717,11 @@ impl<T: Eq + Hash + Clone> AutomatonBuilder<T> {
         let mut num_final_states = 0;
         let mut state_array = Vec::with_capacity(n);
         for (i, s) in self.states.iter_mut().enumerate() {
+            // check the transitions as specified, before cleanup rewrites them
+            let specified = s.make_partition()?;
+            if s.default_successor.is_none() && !specified.empty_complement() {
+                return Err(Error::MissingDefaultSuccessor);
+            }
             s.cleanup();
             let p = s.make_partition()?;
             if s.default_successor.is_some() && p.empty_complement() {
